@@ -1,6 +1,7 @@
 package gen
 
 import (
+	"fmt"
 	"strings"
 
 	"pgregory.net/rapid"
@@ -13,7 +14,7 @@ import (
 // Roughly two thirds of its outputs parse; the rest exercise the error paths.
 
 var soupIdents = []string{"a", "X", "ab", "NAME", "é", "_", "tasky", "taskX", "tasks", "task_a", "task", "t", "join", "exec", "中", ""}
-var soupStrings = []string{`""`, `"a"`, `"a b"`, `" x "`, `"*.go"`, `"#"`, `"{"`, `"}"`, `"a, b"`, `"é"`, `"->"`, `":="`, `"task"`, `"x`, `x"`, `"a\t"`, `"100%"`, `"%s%d"`, `"%!v(x)%"`, `"{{.X}}"`, `"\\"`, "\"\nsrc\"", "\"\n\"", "\"\r\n x\"", "\"a\nb\""}
+var soupStrings = []string{`""`, `"a"`, `"a b"`, `" x "`, `"*.go"`, `"#"`, `"{"`, `"}"`, `"a, b"`, `"é"`, `"->"`, `":="`, `"task"`, `"x`, `x"`, `"a\t"`, `"100%"`, `"%s%d"`, `"%!v(x)%"`, `"{{.X}}"`, `"\\"`, "\"\nsrc\"", "\"\n\"", "\"\r\n x\"", "\"a\nb\"", "\"" + strings.Repeat("é", 25), "\"" + strings.Repeat("中", 14) + "\"", "\"" + strings.Repeat("中", 14), "\"" + strings.Repeat("x", 41), "\"" + strings.Repeat("é", 41) + "\""}
 var soupComments = []string{"", " ", "  ", "\t", " a", "a", " doc text", " a  b ", "#", "# x", " task t() {}", " \"q\"", " é", "0", " x := 1"}
 var soupCmds = []string{"task build", "task", "printf [%s] a\\ \\  ", "echo a  ", "echo {{.A |", "upper}} x", "echo {{", "}} y", "a\r", "echo hi\r", "x \r", "a\r\r", "b\r ", "go test ./...", "echo {{.X}}", "a", "echo hi ", "echo \"x\"", "x\t", "echo hi\t ", "ls -la | wc", "echo {{.A}}{{.B}}", "é", "echo #c", "echo }", "1x", "echo {", "echo {{.X}} ", "b  c"}
 var soupSeps = []string{"\n", "\n", "\n", "\n", "\r\n", "\r\n", " ", " ", "", "\n\n", "\t", "\r", "\n \n", " \n"}
@@ -228,4 +229,39 @@ func WithStrayBytes(t *rapid.T, x string) string {
 	}
 	b := rapid.SampledFrom([]string{"caf\xe9", "\xe9", "\xff", "\xc3", "\xa0", "\x80\x80", "\xed\xa0\x80", "\xf5"}).Draw(t, "stray_seq")
 	return x[:pos] + b + x[pos:]
+}
+
+// WithManyStatements puts, once in about a hundred inputs, one to six thousand short statements in
+// front of x (comments, variables, small documented tasks): files are not always small, and
+// nothing in the syntax bounds their length.
+func WithManyStatements(t *rapid.T, x string) string {
+	if rapid.IntRange(0, 99).Draw(t, "many_statements") != 0 {
+		return x
+	}
+	n := rapid.IntRange(1000, 6000).Draw(t, "how_many")
+	kind := rapid.IntRange(0, 2).Draw(t, "many_kind")
+	var b strings.Builder
+	for i := 0; i < n; i++ {
+		switch kind {
+		case 0:
+			b.WriteString("# note\n")
+		case 1:
+			fmt.Fprintf(&b, "# about v\nV := \"%c\"\n\n", 'a'+rune(i%26))
+		default:
+			fmt.Fprintf(&b, "# note\n\nX := \"v\"\n\n# does t\ntask t%s() {\n    echo hi\n}\n\n", letters(i))
+		}
+	}
+	return b.String() + x
+}
+
+// letters spells i with letters only (identifiers have no digits).
+func letters(i int) string {
+	s := ""
+	for {
+		s = string(rune('a'+i%26)) + s
+		i /= 26
+		if i == 0 {
+			return s
+		}
+	}
 }
